@@ -100,7 +100,7 @@ def run(ctx):
                              "SysGates": "{<<1,2>>}", "EnvGates": '{"CS","SW","CSP"}', "Controls": ctl_sets}, None),
         ("3 envs (sampled)", {"D": "2", "EDims": "<<2,2,2>>", "A0": "<<1,0,1>>", "N": "3", "M": "4",
                               "SysGates": "{<<1,2>>,<<0,2>>}", "EnvGates": '{"CS","CP","SC","SW","CSP"}',
-                              "Controls": ctl_sets}, "num=%d" % (60 if quick else 1500)),
+                              "Controls": ctl_sets}, "num=%d" % (60 if quick else 400)),
     ]
     if not quick:
         configs.append(("1 env, 3 steps", {"D": "2", "EDims": "<<2>>", "A0": "<<1>>", "N": "3", "M": "4",
@@ -108,13 +108,13 @@ def run(ctx):
                                            "Controls": all_ctl}, None))
         configs.append(("2 envs, 3 steps (sampled)", {"D": "3", "EDims": "<<3,2>>", "A0": "<<1,1>>", "N": "3", "M": "6",
                                                       "SysGates": "{<<1,2>>,<<2,3>>}", "EnvGates": '{"CS","CP","SC","SW","CSP"}',
-                                                      "Controls": ctl_sets}, "num=3000"))
+                                                      "Controls": ctl_sets}, "num=500"))
     jobs = []
     for label, consts, sim in configs:
         consts = dict(consts, Emit="TRUE", Devs="{}", FixedPlan="<< >>", Dephase="FALSE")
         if sim:
             r = ctx.tlc("PTContract", CFG, label=label, constants=consts, workers=1,
-                        simulate=sim + ",", extra=["-depth", "40", "-seed", str(ctx.seed + 11)])
+                        simulate=sim + ",", extra=["-depth", "40", "-seed", str(ctx.seed + 11)], timeout=2400)
         else:
             r = ctx.tlc("PTContract", CFG, label=label, constants=consts, workers=1)
         seen = set()
